@@ -185,8 +185,8 @@ theorem interval_dies' {s : State} (h : BInv s) (τ : Timer) (hτ : τ ∈ s.tim
     (τ.sentAt.filter (fun t => decide (tc < t))).length ≤ 1 := by
   refine ⟨?_, ((h.inv.tinv τ hτ).closed tc hc (by simp [hk, Kind.sends])).2⟩
   intro hle hle2 hp
-  have := h.okPrompt
-  unfold Timers.okPrompt at this
+  have := h.okPrompt1
+  unfold Timers.okPrompt1 at this
   rw [List.all_eq_true] at this
   have := this τ hτ
   unfold timerPromptOk diesOk at this
